@@ -159,7 +159,10 @@ impl<'names> GlifParser<'names> {
                 }
                 Event::Empty(start) => {
                     match start.name().as_ref() {
-                        b"contour" => (), // Empty contours are meaningless.
+                        // Empty contours are meaningless, but their attributes must be valid.
+                        b"contour" => {
+                            self.parse_contour_attributes(&start)?;
+                        }
                         b"component" => self.parse_component(start, &mut outline_builder)?,
                         _other => return Err(ErrorKind::UnexpectedElement.into()),
                     }
@@ -210,13 +213,10 @@ impl<'names> GlifParser<'names> {
         Ok(id)
     }
 
-    fn parse_contour(
+    fn parse_contour_attributes(
         &mut self,
-        data: BytesStart,
-        reader: &mut Reader<&[u8]>,
-        buf: &mut Vec<u8>,
-        outline_builder: &mut OutlineBuilder,
-    ) -> Result<(), GlifLoadError> {
+        data: &BytesStart,
+    ) -> Result<Option<Identifier>, GlifLoadError> {
         let mut identifier = None;
         for attr in data.attributes() {
             if self.version == VERSION_1 {
@@ -229,6 +229,17 @@ impl<'names> GlifParser<'names> {
                 _other => return Err(ErrorKind::UnexpectedAttribute.into()),
             }
         }
+        Ok(identifier)
+    }
+
+    fn parse_contour(
+        &mut self,
+        data: BytesStart,
+        reader: &mut Reader<&[u8]>,
+        buf: &mut Vec<u8>,
+        outline_builder: &mut OutlineBuilder,
+    ) -> Result<(), GlifLoadError> {
+        let identifier = self.parse_contour_attributes(&data)?;
 
         outline_builder.begin_path(identifier)?;
         loop {
